@@ -9,6 +9,9 @@ unlink) is a numbered step of the current simulator op, observable by a hook
     crash        the process is killed before the call (nothing of it happens)
     crash_after  the call is performed, then the process is killed
     enospc, eio  the call is not performed and raises OSError(errno)
+    raced        unlink only: another process removes the very file just
+                 before the call (the call is then performed and fails the
+                 way the kernel makes it fail); on any other call no fault
     short        write only: `cut` bytes of the chunk reach the file, then
                  OSError(ENOSPC) (what a short write(2) followed by the retry
                  of a buffered writer looks like); on a non-write call it is
@@ -53,7 +56,7 @@ import os as _real_os
 from . import SimCrash, HarnessError
 from . import rng as rngmod
 
-KINDS = ('crash', 'crash_after', 'enospc', 'eio', 'short')
+KINDS = ('crash', 'crash_after', 'enospc', 'eio', 'short', 'raced')
 _ERRNO = {'enospc': errno.ENOSPC, 'eio': errno.EIO, 'short': errno.ENOSPC}
 FS_STEP_S = 0.00005      # virtual time one mutating call takes
 
@@ -94,6 +97,7 @@ class FaultFS:
         self.listings = 0         # glob/listdir calls on the scope
         self.on_step = None       # callable(call, basename) after each call
         self.on_list = None       # callable() when the scope is listed
+        self.on_race = None       # callable(basename): someone else removed it
 
     # -- op framing
     def begin(self, order=0, plan=None):
@@ -157,6 +161,19 @@ class FaultFS:
         if plan is not None and plan['at'] == self.steps:
             self.plan = None
             kind = plan['kind']
+            if kind == 'raced':
+                if call == 'unlink' and _real_os.path.lexists(path):
+                    self.fired = {'kind': kind, 'call': call, 'name': base,
+                                  'at': self.steps}
+                    _real_os.unlink(path)
+                    self.ctimes.pop(path, None)
+                    if self.on_race is not None:
+                        self.on_race(base)
+                result = perform()
+                if post is not None:
+                    post()
+                self._after(call, base)
+                return result
             self.fired = {'kind': kind, 'call': call, 'name': base,
                           'at': self.steps}
             if kind == 'crash':
